@@ -429,6 +429,11 @@ func (e *enc) value(v ssa.Value) Term {
 			}
 		}
 	}
+	if p, ok := fr.prov[v]; ok && strings.HasPrefix(p.base, "V:") && len(p.path) == 0 {
+		if _, isSlice := v.Type().Underlying().(*types.Slice); isSlice {
+			return e.read(p) // a slice whose elements were assigned in place: its current content
+		}
+	}
 	if t, ok := fr.val[v]; ok {
 		return t
 	}
